@@ -434,6 +434,20 @@ def scan(src, module):
                         jx = S.index(match_close(toks, S[jx]))
                     jx += 1
                 j = jx + 1
+            elif T(j + 1).text == '!' and T(j).kind == 'id':
+                # `macro_rules! name { .. }` or an item-position macro invocation `name! { .. }` / `name!( .. );`: kept
+                # verbatim; what it expands to is not seen by this scanner (no contract can be attached to it) but is still
+                # checked by the verifier like any other code
+                jx = j + 2
+                if T(j).text == 'macro_rules':
+                    jx += 1
+                if T(jx).text not in ('{', '(', '['):
+                    raise ExtractError('unrecognised macro item at offset %d in module %s' % (T(j).pos, module))
+                closer = T(jx).text
+                jx = S.index(match_close(toks, S[jx])) + 1
+                if closer != '{' and T(jx).text == ';':
+                    jx += 1
+                j = jx
             else:
                 raise ExtractError('unrecognised item starting with %r at offset %d in module %s' % (kw, T(j).pos, module))
 
